@@ -542,6 +542,72 @@ def corpus_f32(chk, da):
             chk.traces_validated += 1
 
 
+def fam_unknown_vs_known(chk, da, rng):
+    """binary elementwise ops between a selection with unknown block sizes and a KNOWN operand (one chunk, the same number of
+    blocks, a broadcast length-1 axis), under every unify-chunks policy: must raise or give NumPy's result.  The masks are
+    drawn so that per-block selection sizes are often all 1 / all equal (where a silent per-block broadcast goes unnoticed
+    by NumPy itself)"""
+    import dask
+    n = 1200 if chk.tier == "thorough" else 150
+    for it in range(n):
+        nb = rng.choice([2, 3, 4])
+        bs = rng.choice([2, 3, 4])
+        xn = np.arange(nb * bs, dtype="int64") * 3 - 5
+        style = rng.choice(["one-per-block", "k-per-block", "random"])
+        mn = np.zeros(nb * bs, dtype=bool)
+        if style == "random":
+            mn = np.array([rng.random() < 0.5 for _ in range(nb * bs)])
+        else:
+            k = 1 if style == "one-per-block" else rng.randint(1, bs)
+            for b in range(nb):
+                for j in rng.sample(range(bs), k):
+                    mn[b * bs + j] = True
+        sel = xn[mn]
+        if sel.size == 0:
+            continue
+        wkind = rng.choice(["one-chunk-full", "one-chunk-blocklen", "same-nblocks", "len1", "scalar"])
+        per_block = [int(mn[b * bs:(b + 1) * bs].sum()) for b in range(nb)]
+        if wkind == "one-chunk-full":
+            wn, wch = np.arange(sel.size, dtype="int64") * 10, (sel.size,)
+        elif wkind == "one-chunk-blocklen":
+            L = max(per_block)
+            wn, wch = np.arange(L, dtype="int64") * 10 + 10, (L,)
+        elif wkind == "same-nblocks":
+            wn, wch = np.arange(sel.size, dtype="int64") * 10, (tuple(c for c in per_block),) if all(per_block) else (sel.size,)
+        elif wkind == "len1":
+            wn, wch = np.array([7], dtype="int64"), (1,)
+        else:
+            wn, wch = np.int64(7), None
+        policy = rng.choice(["auto", "coarse", "refine"])
+        order = rng.choice(["y+w", "w-y"])
+        try:
+            want = sel + wn if order == "y+w" else wn - sel
+        except ValueError:
+            want = None                   # NumPy itself refuses: the dask expression must raise too
+        desc = {"x": xn.tolist(), "x_chunks": bs, "mask": mn.astype(int).tolist(), "w": np.asarray(wn).tolist(), "w_chunks": wch,
+                "policy": policy, "expr": order, "true_block_sizes": per_block}
+        chk.case(("unknown-vs-known", nb, bs, tuple(mn.tolist()), wkind, policy, order), nontrivial=True, sample=desc if it < 2 else None)
+        chk.count(f"unknown-vs-known:{wkind}:{policy}")
+        try:
+            with dask.config.set({"array.unify-chunks-policy": policy}), warnings.catch_warnings():
+                warnings.simplefilter("ignore")
+                x = da.from_array(xn, chunks=bs)
+                y = x[da.from_array(mn, chunks=bs)]
+                w = da.from_array(wn, chunks=wch) if wch is not None else wn
+                r = (y + w) if order == "y+w" else (w - y)
+                got = r.compute(scheduler="sync")
+        except Exception:  # noqa: BLE001
+            chk.count("unknown-vs-known:refused")
+            chk.traces_validated += 1
+            continue
+        if want is None or np.shape(got) != np.shape(want) or not np.array_equal(got, want):
+            chk.violation(f"{order} with unknown block sizes {per_block} and a known operand ({wkind}) under policy {policy} silently returns "
+                          f"{np.asarray(got).tolist()} (shape {np.shape(got)}); NumPy: {'raises' if want is None else np.asarray(want).tolist()}",
+                          desc, signature={"class": "unknown-chunks", "problem": "unknown vs known operand: silently wrong", "operand": wkind, "policy": policy})
+        else:
+            chk.traces_validated += 1
+
+
 def run(chk: Check):
     import dask_array as da
     chk.rule = ("data-dependent selections (dask / NumPy boolean masks, nonzero, unique, argwhere, flatnonzero, compress) over generated "
@@ -564,6 +630,7 @@ def run(chk: Check):
     chk.run_proofs()
     corpus_f32(chk, da)
     rng = chk.rng
+    fam_unknown_vs_known(chk, da, rng)
     n = 5000 if chk.tier == "thorough" else 300
     for it in range(n):
         rank = rng.choice([1, 1, 2, 2, 3])
